@@ -137,6 +137,23 @@ def selection_rules(R, ro, P="C05"):
                 "candidate replaced only when it is the first one or its get_priority() is greater",
                 "the candidate can be replaced by a batch whose priority is not greater (comparison direction / missing comparison)",
                 cfg.fmt_path(p) if p else None)
+        # the first eligible batch is taken without comparing (there is nothing to compare it with yet)
+        lt_tests = [n for n in cfg.nodes_in(loop) if n.kind == "test" and q.atom_test(n.ast)[0] == "lt"
+                    and set(q.atom_test(n.ast)[1]) & best_names]
+
+        def first_edge(e):
+            nd = cfg.nodes[e.src]
+            if nd.kind != "test":
+                return True
+            k, s, pos = q.atom_test(nd.ast)
+            if k == "isnone" and (s == cand or s in best_names):
+                return e.label == ("T" if pos else "F")     # we are on the "no candidate yet" side
+            return True
+        p = cfg.find_path(iter_starts, [st], N, cut_nodes=lt_tests, keep_edge=first_edge)
+        R.check(p is not None, P + ".ARGMAX", "%s:first" % sel.qualname, site,
+                "while there is no candidate yet, an eligible batch becomes the candidate without a priority comparison",
+                "with no candidate yet, a batch becomes the candidate only through a comparison with the (still unset) best priority: "
+                "the first batch is never selected / None is compared with a priority")
         # the remembered best priority changes only together with the candidate
         for n in cfg.nodes_in(loop):
             if n.kind == "stmt" and isinstance(n.ast, (ast.Assign, ast.AugAssign)) and (q.names_stored(n.ast) & best_names):
